@@ -2,7 +2,7 @@
    Statements only.  Proofs: Proofs/RunnerP.v (on top of the dispatcher invariants of
    Proofs/DispatchInv.v: a node whose generator passed its last `yield this_task` is never handed
    to the runner again). *)
-From DoitV Require Import Base Dispatch Runner Parallel DispatchP DispatchInv RunnerTr RunnerP ParallelP CompleteP.
+From DoitV Require Import Base Dispatch Runner Parallel DispatchP DispatchInv RunnerTr RunnerP ParallelP AncP CompleteP TermP LiveP.
 Open Scope N_scope.
 
 (* serial runner, every task table / selection / flags / set-iteration oracle / fuel:
@@ -69,6 +69,18 @@ Proof.
   exact (run_serial_complete_continue tasks wake_rank calc_rank true always fuel selection eq_refl).
 Qed.
 Print Assumptions C02_continue_every_selected_task_reported_serial.
+
+(* all together (termination: Proofs/TermP.v; no false cycle diagnostic: AncP.v, HoldP.v; completeness):
+   over a FINITE ACYCLIC task table, with the explicit fuel bound, a serial run under --continue either is
+   interrupted by an action (exit code 4) or exits 0/1/2 having reported every selected task -- exactly once,
+   by C02_one_final_report_serial. *)
+Theorem C02_acyclic_continue_every_selected_task_reported_serial :
+  forall tasks univ selection, finite_table tasks univ -> (forall k, ~ reach tasks k k) ->
+  forall wake_rank calc_rank always fuel, (enough_fuel tasks univ selection <= fuel)%nat ->
+  let res := run_serial tasks wake_rank calc_rank true always fuel selection in
+  snd res = 4 \/ (snd res <= 2 /\ forall x, In x selection -> finished_in (fst res) x).
+Proof. exact serial_acyclic_continue_all_reported. Qed.
+Print Assumptions C02_acyclic_continue_every_selected_task_reported_serial.
 
 (* non-vacuity: a run with a failing task under --continue ends with exit code 1 and reports every selected task *)
 Definition ex02f (n : name) : option task :=
